@@ -99,6 +99,10 @@ func runCase1(o *hx.Out, p params) (result string, total int64) {
 		return runSnapshotCase(o, p)
 	case "overlap":
 		return runOverlapCase(o, p)
+	case "cancel":
+		return runCancelCase(o, p)
+	case "tail":
+		return runTailCase(o, p)
 	}
 	panic("unknown leg " + p.leg)
 }
@@ -207,7 +211,7 @@ func main() {
 	legs := []struct {
 		leg   string
 		share int
-	}{{"leader", 49}, {"follower", 34}, {"reelect", 8}, {"snapshot", 7}, {"overlap", 2}}
+	}{{"leader", 49}, {"follower", 34}, {"reelect", 8}, {"snapshot", 7}, {"overlap", 2}, {"cancel", 1}, {"tail", 1}}
 	for _, lg := range legs {
 		t0 := time.Now()
 		legBudget := budget * lg.share / 100
